@@ -136,6 +136,18 @@ def handle : DrvHandler := fun op args =>
         let rs ← (← jStrList? (← jField? d "reasons")).mapM reasonOf?
         pure (Json.bool (sweepSpawns { Inst.fresh 0 with reasons := rs })))
       some (ok (.arr outs.toArray))
+  | "C09.gone", [j] => do
+      -- the DELETED event of the object is being processed: for which of the running instances does a background
+      -- `stop_daemon(deleted)` start in this instant? (`mayBegin .deleted` + the urgency in `tickOk`)
+      let ds ← jArr? j
+      let outs ← ds.mapM (fun d => do
+        let rs ← (← jStrList? (← jField? d "reasons")).mapM reasonOf?
+        let i : Inst := { Inst.fresh 0 with reasons := rs, when := if rs.isEmpty then none else some 0 }
+        let c : Cfg := { backoff := none, timeout := none, polling := 0 }
+        let s : St := { now := 0, run := some i, forever := false, known := false, live := 1, spawns := 1, paused := none,
+                        killerDone := false, exitAt := none, goneAt := some 0 }
+        pure (Json.bool ((step c s (.kBegin .deleted)).isSome && (step c s (.tick 1)).isNone)))
+      some (ok (.arr outs.toArray))
   | "C09.due", [j] => do
       let p ← jInt? (← jField? j "p")
       let since ← jInt? (← jField? j "since")
